@@ -159,7 +159,7 @@ def tr2(ctx, flavours):
     out = []
     for fl in flavours:
         for q, b in sorted(F.bodies.items()):
-            if F.flavour(b) != fl or b['kind'] == 'Closure' or b['impl_trait']:
+            if F.flavour(b) != fl or b['kind'] == 'Closure' or b['impl_trait'] or q in getattr(F, 'absorbed', ()):
                 continue
             fam = b['impl_self_q'].split('::')[-1]
             if fam not in BUILDERS or '::node::algo::' not in b['impl_self_q']:
@@ -232,6 +232,13 @@ def init(ctx, flavours, fams=BUILDERS, which=None):
                 """elements of a collection built from a literal: `X::from([a, b])` (array term) or `vec![a, b]` (array written into a fresh box)"""
                 if isinstance(src_, tuple) and src_ and src_[0] == 'aggr' and src_[1].startswith('array'):
                     return [strip_payload(x) for x in src_[2]]
+                # `HashSet::from_iter([a])` / `X::from([a])` / `[a].into_iter().collect()`
+                if isinstance(src_, tuple) and src_ and src_[0] == 'call' and src_[1].split('::')[-1].rstrip('>') in ('from_iter', 'from', 'collect') and len(src_[2]) == 1:
+                    inner_ = strip_payload(src_[2][0])
+                    while isinstance(inner_, tuple) and inner_ and inner_[0] == 'call' and inner_[1].split('::')[-1].rstrip('>') in ('into_iter', 'iter') and len(inner_[2]) == 1:
+                        inner_ = strip_payload(inner_[2][0])
+                    if isinstance(inner_, tuple) and inner_ and inner_[0] == 'aggr' and inner_[1].startswith('array'):
+                        return [strip_payload(x) for x in inner_[2]]
                 if isinstance(src_, tuple) and src_ and src_[0] == 'call' and 'into_vec' in src_[1]:
                     els = None
                     for abi, abb in enumerate(b['blocks']):
@@ -746,7 +753,7 @@ def opt_rules(ctx, flavours, what):
     for fl in flavours:
         if what == 'priority':
             for q, b in sorted(F.bodies.items()):
-                if F.flavour(b) != fl or b['kind'] == 'Closure' or b['impl_trait'] or not b['impl_self_q'].endswith('::node::algo::pfs::Pfs'):
+                if F.flavour(b) != fl or b['kind'] == 'Closure' or b['impl_trait'] or not b['impl_self_q'].endswith('::node::algo::pfs::Pfs') or q in getattr(F, 'absorbed', ()):
                     continue
                 for sp, kind, v in _enum_stores(F, b, '::Priority'):
                     if kind == 'store' or b['name'] in ('min', 'max'):
@@ -759,7 +766,7 @@ def opt_rules(ctx, flavours, what):
         if what == 'ordering':
             ctor_of = {}
             for q, b in sorted(F.bodies.items()):
-                if F.flavour(b) != fl or b['kind'] == 'Closure' or b['impl_trait'] or not b['impl_self_q'].endswith('::node::algo::order::Order'):
+                if F.flavour(b) != fl or b['kind'] == 'Closure' or b['impl_trait'] or not b['impl_self_q'].endswith('::node::algo::order::Order') or q in getattr(F, 'absorbed', ()):
                     continue
                 for sp, kind, v in _enum_stores(F, b, '::Ordering'):
                     if kind == 'ctor':
@@ -821,7 +828,8 @@ def set_rules(ctx, flavours, fams=BUILDERS):
                                 if by_value and strip_payload(t_) == ('f', P1_, str(i)):
                                     continue
                                 st.setdefault(i, []).append(t_)
-                        elif s_['dst']['p'] and by_value and s_['dst']['l'] == 1:
+                        elif s_['dst']['p'] and by_value and (s_['dst']['l'] == 1 or (F.types[b['locals'][s_['dst']['l']]].get('p') == path and strip_payload(pv.of_local(s_['dst']['l'])) == P1_)):
+                            # (a moved copy of self: the parameter of a spliced private setter helper)
                             m = re.match(r'^\.(\d+)', s_['dst']['p'][0])
                             if m:
                                 t_ = ('aggr', rv['ak'], tuple(pv.of_operand(o) for o in rv['ops'])) if rv['k'] == 'aggr' else (pv.of_operand(rv['ops'][0]) if rv.get('ops') else ('?',))
